@@ -6,6 +6,7 @@ CONSTANTS
   WithHist = FALSE
   GenLen = 0
   MaxG = 1000
+  WithWDL = FALSE
   DEV = "none"
 CONSTRAINT HWM
 POSTCONDITION Accepted
